@@ -142,6 +142,15 @@ func (c *FnCtx) genCandidates(li *loopInfo) []*candidate {
 			}
 		}
 	}
+	// slices built by this call: their backing array is fresh (or they have no capacity yet)
+	if c.frameMode() {
+		for _, sz := range sizes {
+			if strings.HasPrefix(sz, "cap(") {
+				x := strings.TrimSuffix(strings.TrimPrefix(sz, "cap("), ")")
+				texts = append(texts, fmt.Sprintf("oldalloc() < arr(%s) || cap(%s) == 0", x, x))
+			}
+		}
+	}
 	// state kept in fields: monotone or unchanged with respect to the entry state
 	for _, x := range ints {
 		if strings.Contains(x, ".") {
